@@ -698,16 +698,19 @@ class BTree(Generic[KT, ET]):
         cloned = self.root.maybe_cow(self.creator)
         if cloned:
             self.root = cloned
-        elt = self.root.delete(key, None, exact)
+        try:
+            elt = self.root.delete(key, None, exact)
+        finally:
+            # Rebalancing on the way down can merge the root's only two children and
+            # leave the root without elements even if nothing is deleted in the end (the
+            # key is absent, or an exact delete does not match), so an empty root level
+            # is always collapsed, making its only child the new root.
+            if len(self.root.elts) == 0 and not self.root.is_leaf:
+                assert len(self.root.children) == 1
+                self.root = self.root.children[0]
         if elt is not None:
             # We deleted something
             self.size -= 1
-            if len(self.root.elts) == 0:
-                # The root is now empty.  If there is a child, then collapse this root
-                # level and make the child the new root.
-                if not self.root.is_leaf:
-                    assert len(self.root.children) == 1
-                    self.root = self.root.children[0]
         return elt
 
     def delete_key(self, key: KT) -> ET | None:
